@@ -341,6 +341,50 @@ def c07_d(ctx: Ctx):
                     out.append(ctx.ok(R, fw, c, "the command line filter tokens are parsed by parse_filter_arg and evaluated by the same _find_job_ids as Project.find_jobs"))
             if not ok:
                 out.append(ctx.viol(R, fw, fw.node, "the command line `find` does not evaluate parse_filter_arg(tokens) through Project._find_job_ids: CLI and Python spellings use different evaluators"))
+    # _is_json_like decides which command-line tokens are handed to the JSON parser: evaluated on constant probe tokens
+    from .. import absint as A
+    jl = ctx.prog.funcs.get("signac.filterparse:_is_json_like")
+    kj = "signac.filterparse:_is_json_like|probes"
+    if jl is None:
+        out.append(ctx.inc(R, None, None, "_is_json_like not found", construct=kj))
+    else:
+        want = {"[]": True, "{}": True, "[1]": True, '{"a": 1}': True, "[[1, 2], 3]": True, "abc": False, "12": False, "[1": False, "a]": False, "{a": False, "/x/": False}
+        wrong, gave_up = [], None
+        for tok, exp in want.items():
+            evl = A.Evaluator({jl.params[0]: A.Const(tok)})
+            try:
+                kind, val = evl.run(jl.node.body)
+                got = bool(val.value) if kind == "return" and isinstance(val, A.Const) else None
+                if got is None:
+                    gave_up = "no constant result"
+                elif got != exp:
+                    wrong.append((tok, got))
+            except A.Raised as ex:
+                wrong.append((tok, "raises " + ex.exc))
+            except A.GiveUp as g:
+                gave_up = g.why
+        if wrong:
+            out.append(ctx.viol(R, jl, jl.node, f"_is_json_like answers {wrong} on the probe tokens: e.g. the two-character values '[]' / '{{}}' are searched as strings instead of being "
+                                "parsed as JSON, so `signac find tags []` selects other jobs than {'tags': []}", construct=kj))
+        elif gave_up:
+            out.append(ctx.inc(R, jl, jl.node, f"_is_json_like could not be evaluated on the probe tokens: {gave_up}", construct=kj))
+        else:
+            out.append(ctx.ok(R, jl, jl.node, f"_is_json_like classifies all {len(want)} probe tokens ('[]', '{{}}', nested, non-JSON) as expected", construct=kj))
+    # the root (namespace) of a dotted key is its FIRST component, in _root_keys exactly as in _add_prefix
+    rk = ctx.fn("signac.filterparse:_root_keys")
+    ys = [y.value for y in body_nodes(rk) if isinstance(y, ast.Yield) and y.value is not None]
+    kr = rk.qual + "|first-component"
+    bad = [y for y in ys if any(isinstance(c, ast.Call) and isinstance(c.func, ast.Attribute) and c.func.attr in ("rsplit", "rpartition") for c in ast.walk(y))
+           or any(isinstance(s2, ast.Subscript) and ctx.fold(s2.slice, rk) not in (0, UNKNOWN) and isinstance(s2.value, ast.Call) and isinstance(s2.value.func, ast.Attribute)
+                  and s2.value.func.attr in ("split", "partition") for s2 in ast.walk(y))]
+    good = [y for y in ys if common.pmatch("K.split('.', 1)[0]", y) is not None or common.pmatch("K.partition('.')[0]", y) is not None or common.pmatch("K.split('.')[0]", y) is not None]
+    if bad:
+        out.append(ctx.viol(R, rk, bad[0], f"_root_keys yields `{canon(bad[0])}` for a dotted key, which is not its first component: 'doc.a.b' (or 'doc.n.$gt') is no longer recognised as a "
+                            "document key, the index is built without job documents and the filter matches nothing", construct=kr))
+    elif good:
+        out.append(ctx.ok(R, rk, good[0], "_root_keys yields the first dotted component of a key", construct=kr))
+    else:
+        out.append(ctx.inc(R, rk, rk.node, "_root_keys: component extraction not recognised", construct=kr))
     pfa = ctx.fn("signac.filterparse:parse_filter_arg")
     ps = ctx.fn("signac.filterparse:_parse_single")
     # key-only token => $exists; /regex/ => $regex; JSON-like => parsed JSON; else _cast
